@@ -68,6 +68,11 @@ func (v *Vue) evalConditionExpr(ctx VueContext, expr string) (bool, error) {
 			// Successfully evaluated - convert nil to bool and negate
 			return !helpers.IsTruthy(innerResult), nil
 		}
+		if strings.HasPrefix(innerExpr, "!") {
+			// (!!path: the negation of what !path is - true for a path that leads nowhere)
+			inner, err := v.evalConditionExpr(ctx, innerExpr)
+			return !inner, err
+		}
 		// Fall back to stack resolution if expr evaluation fails
 		val, ok := ctx.stack.Resolve(innerExpr)
 		if ok {
